@@ -43,6 +43,7 @@ EXOTIC = ('\x0b', '\x0c', '\x1c', '\x1d', '\x1e', '\x85', '\u2028', '\u2029')
 def cases(ctx):
     q = ctx.tier == 'quick'
     n = 120 if q else 4000
+    ctx.new_phase()
     for i in range(n):
         if not ctx.time_left():
             break
